@@ -3,6 +3,7 @@ import Proofs.TieLJ
 import Proofs.TieLJShape
 import Proofs.SrcC13
 import Proofs.TieOps
+import Proofs.TieCtor
 #print axioms PV.Proofs.C13.powi2
 #print axioms PV.Proofs.C13.powi3
 #print axioms PV.Proofs.C13.powi6
@@ -47,3 +48,14 @@ import Proofs.TieOps
 #print axioms PV.Proofs.Tie.lineshape_transform_tie
 #print axioms PV.Proofs.Tie.molshape_transform_tie
 #print axioms PV.Proofs.Tie.ljshape_transform_tie
+#print axioms PV.Proofs.TieCtor.declared_translated_ctor
+#print axioms PV.Proofs.TieCtor.mol_circle_tie
+#print axioms PV.Proofs.TieCtor.lj_circle_tie
+#print axioms PV.Proofs.TieCtor.mol_from_trimer_tie
+#print axioms PV.Proofs.TieCtor.lj_from_trimer_tie
+#print axioms PV.Proofs.TieCtor.foldlM_push
+#print axioms PV.Proofs.TieCtor.filterMap_range_eq_map
+#print axioms PV.Proofs.TieCtor.cycleTake_one
+#print axioms PV.Proofs.TieCtor.line2_new_tie
+#print axioms PV.Proofs.TieCtor.from_radial_tie
+#print axioms PV.Proofs.TieCtor.polygon_tie
